@@ -991,6 +991,228 @@ Section P.
     - apply call_step. exact IH.
   Qed.
 
+  (* ---------------------------------------------------------------- which functions run during a read *)
+  Definition just (st : state) (i : nat) : Prop :=
+    first st i = true \/ exists s x, In (s, x) (flat (parents st i)) /\ Dsrc st s <> x.
+
+  (* what happened to computed i between st and st': nothing but (possibly) being found unchanged, or
+     exactly one run of its function, justified in st, leaving the reads of that run as parents *)
+  Definition Q (st st' : state) (i : nat) : Prop :=
+    (count st' i = count st i /\ parents st' i = parents st i /\ first st' i = first st i /\ value st' i = value st i)
+    \/
+    (count st' i = count st i + 1 /\ dirty st i = true /\ dirty st' i = false /\ just st i /\
+     (forall p, In p (flat (parents st' i)) <-> In p (reads_of (alive st) (store st) i))).
+
+  Lemma Q_refl : forall st i, Q st st i.
+  Proof. intros. left. auto. Qed.
+
+  Lemma Q_trans : forall a b c i, Q a b i -> Q b c i -> store b = store a -> alive b = alive a ->
+    (dirty b i = true -> dirty a i = true) -> (dirty c i = true -> dirty b i = true) -> Q a c i.
+  Proof.
+    intros a b c i [(A1 & A2 & A3 & A4)|(A1 & A2 & A3 & A4 & A5)] [(B1 & B2 & B3 & B4)|(B1 & B2 & B3 & B4 & B5)] Es Ea N1 N2.
+    - left. repeat split; congruence.
+    - right. split; [congruence|]. split; [auto|]. split; [auto|]. split.
+      + destruct B4 as [H|[s [x [H1 H2]]]]; [left; congruence|right].
+        exists s, x. split; [congruence|]. unfold Dsrc in *. rewrite <- Es, <- Ea. exact H2.
+      + rewrite <- Es, <- Ea. exact B5.
+    - right. split; [congruence|]. split; [auto|]. split.
+      + destruct (dirty c i) eqn:E; auto. rewrite (N2 eq_refl) in A3. discriminate.
+      + split; auto. rewrite B2. exact A5.
+    - congruence.
+  Qed.
+
+  Lemma Q_same_hi : forall b st st' i, same_hi b st st' -> (b <= i)%nat -> Q st st' i.
+  Proof. intros b st st' i (_ & _ & A3 & _) Hi. destruct (A3 i Hi) as (a1 & a2 & a3 & a4 & a5). left. auto. Qed.
+
+  Definition call_q (f : nat) : Prop :=
+    forall st j m, (j < f)%nat -> (j < n)%nat -> (j < m)%nat -> G st -> RDs m st ->
+      forall i, Q st (fst (callf prog f st j)) i.
+
+  Section StepQ.
+    Variable f : nat.
+    Hypothesis IHq : call_q f.
+
+    (* Computable.__get__ = Computed.__call__ here: the change notification finds everybody dirty *)
+    Lemma rc_eq : forall st k m, (k < f)%nat -> (k < n)%nat -> (k < m)%nat -> G st -> RDs m st ->
+      read_comp prog (callf prog f) None st k = callf prog f st k.
+    Proof.
+      intros st k m Hkf Hkn Hkm HG HR. unfold read_comp.
+      pose proof (call_all f st k m Hkf Hkn Hkm HG HR) as H.
+      destruct (callf prog f st k) as [st1 v]. destruct H as (G1 & R1 & Ev & Dk & Vk & HS & Hc).
+      destruct (first st k || negb (v =? value st k)) eqn:E; auto.
+      assert (Hdk : dirty st k = true).
+      { destruct (dirty st k) eqn:Ed; auto. destruct (Hc eq_refl) as [Hv Hf]. rewrite <- Hv in E.
+        rewrite Hf, Z.eqb_refl in E. discriminate. }
+      rewrite notify_id; auto. eapply (subs_dirty_after st st1 k); eauto.
+    Qed.
+
+    Lemma rc_some_eq : forall st k j, (k < j)%nat -> (j <= f)%nat -> (j < n)%nat -> G st -> RDs j st -> dirty st j = true ->
+      read_comp prog (callf prog f) (Some j) st k =
+      (add_parent prog (fst (callf prog f st k)) j (SComp k) (snd (callf prog f st k)), snd (callf prog f st k)).
+    Proof.
+      intros st k j Hkj Hjf Hjn HG HR Hd. unfold read_comp.
+      pose proof (call_all f st k j ltac:(lia) ltac:(lia) Hkj HG HR) as H.
+      destruct (callf prog f st k) as [st1 v]. destruct H as (G1 & R1 & Ev & Dk & Vk & HS & Hc). simpl.
+      destruct (first st k || negb (v =? value st k)) eqn:E; auto.
+      assert (Hdk : dirty st k = true).
+      { destruct (dirty st k) eqn:Ed; auto. destruct (Hc eq_refl) as [Hv Hf]. rewrite <- Hv in E.
+        rewrite Hf, Z.eqb_refl in E. discriminate. }
+      assert (Hd1 : dirty st1 j = true).
+      { destruct HS as (_ & _ & A3 & _). destruct (A3 j ltac:(lia)) as (E1 & _). congruence. }
+      rewrite notify_id; auto. intros d Hin. simpl in Hin. rewrite upds_same in Hin.
+      apply in_app_or in Hin. destruct Hin as [Hin|[Hin|[]]].
+      - change (dirty st1 d = true). eapply (subs_dirty_after st st1 k); eauto.
+      - subst d. exact Hd1.
+    Qed.
+
+    Lemma cmp_q : forall j m l st, (j <= f)%nat -> (j < n)%nat -> (j <= m)%nat -> G st -> RDs m st ->
+      (forall k x, In (SComp k, x) l -> (k < j)%nat) ->
+      forall i, Q st (fst (cmp_items prog (callf prog f) l st)) i.
+    Proof.
+      intros j m. induction l as [|[s old] t IH]; intros st Hjf Hjn Hjm HG HR Hl i; simpl.
+      - apply Q_refl.
+      - destruct s as [o nm|k].
+        + destruct (store st o nm =? old); [|apply Q_refl].
+          apply IH; auto. intros k x H. apply (Hl k x). right. exact H.
+        + assert (Hkj : (k < j)%nat) by (eapply Hl; left; reflexivity).
+          rewrite (rc_eq st k m ltac:(lia) ltac:(lia) ltac:(lia) HG HR).
+          pose proof (call_all f st k m ltac:(lia) ltac:(lia) ltac:(lia) HG HR) as H.
+          pose proof (IHq st k m ltac:(lia) ltac:(lia) ltac:(lia) HG HR i) as Hq.
+          destruct (callf prog f st k) as [st1 v]. destruct H as (G1 & R1 & Ev & Dk & Vk & HS & Hc). simpl in Hq.
+          destruct (v =? old); [|exact Hq].
+          pose proof (cmp_ok f (call_all f) j m t st1 Hjf Hjn Hjm G1 R1 (fun k x H => Hl k x (or_intror H))) as Hc2.
+          specialize (IH st1 Hjf Hjn Hjm G1 R1 (fun k x H => Hl k x (or_intror H)) i).
+          destruct (cmp_items prog (callf prog f) t st1) as [st2 ch]. simpl in *.
+          destruct Hc2 as (_ & _ & S2 & _).
+          eapply Q_trans; [exact Hq|exact IH|apply HS|apply HS|apply HS|apply S2].
+    Qed.
+
+    Lemma ev_q : forall j, (j <= f)%nat -> (j < n)%nat -> forall e st,
+      G st -> RDs j st -> dirty st j = true -> Kinv j st ->
+      forall i, i <> j -> Q st (fst (ev prog (callf prog f) j e st)) i.
+    Proof.
+      intros j Hjf Hjn. induction e as [z|o nm|k|a IHa b IHb|c IHc a IHa b IHb]; intros st HG HR Hd HK i Hi.
+      - apply Q_refl.
+      - simpl. destruct (alive st o); [|apply Q_refl]. left. simpl. rewrite updn_other by auto. auto.
+      - simpl. destruct ((k <? j)%nat && alive st (cown k)) eqn:Ec; [|apply Q_refl].
+        apply andb_true_iff in Ec. destruct Ec as [Ekj _]. apply Nat.ltb_lt in Ekj.
+        rewrite (rc_some_eq st k j Ekj Hjf Hjn HG HR Hd).
+        pose proof (call_all f st k j ltac:(lia) ltac:(lia) Ekj HG HR) as H.
+        pose proof (IHq st k j ltac:(lia) ltac:(lia) Ekj HG HR i) as Hq.
+        destruct (callf prog f st k) as [st1 v]. destruct H as (G1 & R1 & Ev & Dk & Vk & HS & Hc). simpl in *.
+        eapply Q_trans; [exact Hq| |apply HS|apply HS|apply HS|auto].
+        left. simpl. rewrite updn_other by auto. auto.
+      - simpl. pose proof (ev_ok f (call_all f) j Hjf Hjn a st HG HR Hd HK) as Ha. specialize (IHa st HG HR Hd HK i Hi).
+        destruct (ev prog (callf prog f) j a st) as [st1 va].
+        destruct Ha as (G1 & R1 & K1 & V1 & M1 & Det1 & S1 & D1 & _).
+        pose proof (ev_ok f (call_all f) j Hjf Hjn b st1 G1 R1 D1 K1) as Hb. specialize (IHb st1 G1 R1 D1 K1 i Hi).
+        destruct (ev prog (callf prog f) j b st1) as [st2 vb].
+        destruct Hb as (_ & _ & _ & _ & _ & _ & S2 & _). simpl in *.
+        eapply Q_trans; [exact IHa|exact IHb|apply S1|apply S1|apply S1|apply S2].
+      - simpl. pose proof (ev_ok f (call_all f) j Hjf Hjn c st HG HR Hd HK) as Hc. specialize (IHc st HG HR Hd HK i Hi).
+        destruct (ev prog (callf prog f) j c st) as [st1 vc].
+        destruct Hc as (G1 & R1 & K1 & V1 & M1 & Det1 & S1 & D1 & _). simpl in IHc.
+        destruct (vc =? 0).
+        + pose proof (ev_ok f (call_all f) j Hjf Hjn b st1 G1 R1 D1 K1) as Hb. specialize (IHb st1 G1 R1 D1 K1 i Hi).
+          destruct (ev prog (callf prog f) j b st1) as [st2 vb].
+          destruct Hb as (_ & _ & _ & _ & _ & _ & S2 & _). simpl in *.
+          eapply Q_trans; [exact IHc|exact IHb|apply S1|apply S1|apply S1|apply S2].
+        + pose proof (ev_ok f (call_all f) j Hjf Hjn a st1 G1 R1 D1 K1) as Hb. specialize (IHa st1 G1 R1 D1 K1 i Hi).
+          destruct (ev prog (callf prog f) j a st1) as [st2 vb].
+          destruct Hb as (_ & _ & _ & _ & _ & _ & S2 & _). simpl in *.
+          eapply Q_trans; [exact IHc|exact IHa|apply S1|apply S1|apply S1|apply S2].
+    Qed.
+
+    (* the rebuilding branch of __call__, from a state st1 in which j is dirty and not first *)
+    Lemma rebuild_q : forall j st1, (j <= f)%nat -> (j < n)%nat -> G st1 -> RDs j st1 -> dirty st1 j = true ->
+      let '(stb, v) := ev prog (callf prog f) j (d_expr (cdef_at prog j)) (remove_parents prog st1 j) in
+      (forall i, i <> j -> Q st1 stb i) /\ count stb j = count st1 j /\
+      (forall p, In p (flat (parents stb j)) <-> In p (reads_of (alive st1) (store st1) j)) /\
+      (forall i, dirty stb i = true -> dirty st1 i = true).
+    Proof.
+      intros j st1 Hjf Hjn HG HR Hd.
+      set (sta := remove_parents prog st1 j).
+      assert (Ga : G sta) by (apply G_remove_parents; auto).
+      assert (Ra : RDs j sta).
+      { intros i Hi Hfi. unfold sta in *. simpl in *. rewrite updn_other by lia. apply HR; auto. }
+      assert (Ka : Kinv j sta).
+      { intros s x H. unfold sta in H. simpl in H. rewrite updn_same in H. destruct H. }
+      pose proof (ev_ok f (call_all f) j Hjf Hjn (d_expr (cdef_at prog j)) sta Ga Ra Hd Ka) as H.
+      pose proof (ev_reads f (call_all f) j Hjf Hjn (d_expr (cdef_at prog j)) sta Ga Ra Hd Ka) as Hrd.
+      pose proof (ev_q j Hjf Hjn (d_expr (cdef_at prog j)) sta Ga Ra Hd Ka) as Hq.
+      destruct (ev prog (callf prog f) j (d_expr (cdef_at prog j)) sta) as [stb v].
+      destruct H as (Gb & Rb & Kb & Vb & Mb & Detb & Sb & Db & Fb & Valb & Cb). destruct Hrd as [Rd1 Rd2]. simpl in Hq.
+      split; [|split; [exact Cb|split]].
+      - intros i Hi. eapply Q_trans; [|exact (Hq i Hi)|reflexivity|reflexivity|auto|apply Sb].
+        left. unfold sta. simpl. rewrite updn_other by auto. auto.
+      - intro p. unfold reads_of. split; intro Hp.
+        + destruct (Rd1 p Hp) as [Hx|Hx]; [|exact Hx]. unfold sta in Hx. simpl in Hx. rewrite updn_same in Hx. destruct Hx.
+        + apply Rd2. exact Hp.
+      - intros i Hdi. destruct Sb as (_ & _ & _ & _ & N). apply N in Hdi. exact Hdi.
+    Qed.
+
+    Lemma call_q_step : call_q (S f).
+    Proof.
+      intros st j m Hjf Hjn Hjm HG HR i. simpl.
+      destruct (dirty st j) eqn:Ed; simpl; [|apply Q_refl].
+      destruct (first st j) eqn:Ef.
+      - set (st1 := upd_first st (updn (first st) j false)).
+        assert (G1 : G st1).
+        { destruct HG. constructor; try assumption.
+          intros i0 Hc. change (updn (first st) j false i0 = false). unfold updn. destruct (Nat.eqb i0 j); auto. }
+        assert (R1 : RDs j st1).
+        { intros i0 Hi Hfi. unfold st1 in *. simpl in *. rewrite updn_other in Hfi by lia. apply HR; auto; lia. }
+        pose proof (rebuild_q j st1 ltac:(lia) Hjn G1 R1 Ed) as H.
+        destruct (ev prog (callf prog f) j (d_expr (cdef_at prog j)) (remove_parents prog st1 j)) as [stb v].
+        destruct H as (Hq & Hc & Hp & Hn). simpl.
+        destruct (Nat.eq_dec i j) as [->|Hne].
+        + right. simpl. rewrite !updn_same. split; [rewrite Hc; reflexivity|]. split; [exact Ed|]. split; [reflexivity|].
+          split; [left; exact Ef|exact Hp].
+        + specialize (Hq i Hne). destruct Hq as [(q1 & q2 & q3 & q4)|(q1 & q2 & q3 & q4 & q5)].
+          * left. simpl. rewrite !updn_other by auto. unfold st1 in *. simpl in *. rewrite updn_other in q3 by auto. auto.
+          * right. simpl. rewrite !updn_other by auto. split; [exact q1|]. split; [exact q2|]. split; [exact q3|]. split; [|exact q5].
+            destruct q4 as [q4|q4]; [left|right; exact q4]. unfold st1 in q4. simpl in q4. rewrite updn_other in q4 by auto. exact q4.
+      - pose proof (cmp_ok f (call_all f) j m (flat (parents st j)) st ltac:(lia) Hjn ltac:(lia) HG HR
+                      (fun k x H => g_par_down _ HG j k x H)) as H.
+        pose proof (cmp_q j m (flat (parents st j)) st ltac:(lia) Hjn ltac:(lia) HG HR
+                      (fun k x H => g_par_down _ HG j k x H)) as Hq1.
+        destruct (cmp_items prog (callf prog f) (flat (parents st j)) st) as [st1 ch]. simpl in Hq1.
+        destruct H as (G1 & R1 & S1 & C1 & C2).
+        assert (Ej : dirty st1 j = dirty st j /\ first st1 j = first st j /\ value st1 j = value st j /\
+                     count st1 j = count st j /\ parents st1 j = parents st j).
+        { destruct S1 as (_ & _ & A3 & _). apply A3. lia. }
+        destruct Ej as (E1 & E2 & E3 & E4 & E5).
+        assert (Es : store st1 = store st) by apply S1.
+        assert (Ea : alive st1 = alive st) by apply S1.
+        destruct ch.
+        + assert (R1j : RDs j st1) by (intros i0 Hi Hfi; apply R1; auto; lia).
+          pose proof (rebuild_q j st1 ltac:(lia) Hjn G1 R1j ltac:(congruence)) as H.
+          destruct (ev prog (callf prog f) j (d_expr (cdef_at prog j)) (remove_parents prog st1 j)) as [stb v].
+          destruct H as (Hq & Hc & Hp & Hn). simpl.
+          destruct (Nat.eq_dec i j) as [->|Hne].
+          * right. simpl. rewrite !updn_same. split; [rewrite Hc, E4; reflexivity|]. split; [exact Ed|]. split; [reflexivity|].
+            split; [right; destruct (C2 eq_refl) as [s [x [H1 H2]]]; exists s, x; auto|].
+            rewrite <- Es, <- Ea. exact Hp.
+          * eapply Q_trans; [exact (Hq1 i)| |exact Es|exact Ea|apply S1|].
+            -- specialize (Hq i Hne). destruct Hq as [(q1 & q2 & q3 & q4)|(q1 & q2 & q3 & q4 & q5)].
+               ++ left. simpl. rewrite !updn_other by auto. auto.
+               ++ right. simpl. rewrite !updn_other by auto. auto.
+            -- simpl. rewrite updn_other by auto. apply Hn.
+        + simpl. destruct (Nat.eq_dec i j) as [->|Hne].
+          * left. simpl. auto.
+          * eapply Q_trans; [exact (Hq1 i)| |exact Es|exact Ea|apply S1|].
+            -- left. simpl. auto.
+            -- simpl. rewrite updn_other by auto. auto.
+    Qed.
+  End StepQ.
+
+  Lemma call_q_all : forall f, call_q f.
+  Proof.
+    induction f as [|f IH].
+    - intros st j m H. lia.
+    - apply call_q_step. exact IH.
+  Qed.
+
   (* ---------------------------------------------------------------- top level *)
   Definition Inv (st : state) : Prop := G st /\ RDs n st.
 
@@ -1132,6 +1354,77 @@ Section P.
       apply IH; [|intros; apply Hl; right; auto].
       pose proof (read_top_ok s k Hs (Hl k (or_introl eq_refl))) as H. destruct (read_top prog s k). apply H. }
     apply H; auto. intros k Hk. apply in_seq in Hk. unfold ncomp. lia.
+  Qed.
+
+  Lemma reach_ok : forall init ops, no_kill ops = true -> Inv (final prog nobs (install prog (init_state init)) ops).
+  Proof. intros. apply final_ok; auto. apply install_ok. apply init_ok. Qed.
+
+  (* parents = the reads of the last evaluation, with the values read; subscribed to each *)
+  Lemma parents_are_last_reads : forall init ops k, no_kill ops = true -> (k < n)%nat ->
+    let st := final prog nobs (install prog (init_state init)) ops in
+    first st k = false ->
+    (exists sto0, (forall p, In p (flat (parents st k)) <-> In p (reads_of (alive st) sto0 k)) /\
+                  value st k = den (alive st) sto0 k) /\
+    (forall s x, In (s, x) (flat (parents st k)) -> In k (subs st s)) /\
+    (dirty st k = false ->
+       (forall p, In p (flat (parents st k)) <-> In p (reads_of (alive st) (store st) k)) /\
+       value st k = den (alive st) (store st) k).
+  Proof.
+    intros init ops k Hn Hk st Hf. destruct (reach_ok init ops Hn) as [HG HR]. fold st in HG, HR.
+    split; [exact (HR k Hk Hf)|]. split; [intros s x H; exact (g_par_sub _ HG k s x H)|].
+    intros Hc. destruct (RD_det _ _ _ _ (HR k Hk Hf) (store st)) as [H1 H2].
+    { intros s x H. exact (g_clean_val _ HG k s x Hc H). }
+    split; auto.
+  Qed.
+
+  Lemma read_top_q : forall st j, Inv st -> (j < n)%nat -> forall i, Q st (fst (read_top prog st j)) i.
+  Proof.
+    intros st j [HG HR] Hj i. unfold read_top. rewrite (rc_eq n st j n Hj Hj Hj HG HR).
+    apply (call_q_all n st j n Hj Hj Hj HG HR).
+  Qed.
+
+  (* whole histories: reading ANY computed j (k itself, or something that reads k through a chain) runs
+     the function of k at most once, and only if it never ran or a value it read last time differs now;
+     the parents it is left with are the reads of that run on the current store *)
+  Lemma runs_only_when_changed : forall init ops j k, no_kill ops = true -> (j < n)%nat ->
+    let st := final prog nobs (install prog (init_state init)) ops in
+    let st' := fst (read_top prog st j) in
+    count st' k = count st k \/
+    (count st' k = count st k + 1 /\
+     (first st k = true \/ exists s x, In (s, x) (flat (parents st k)) /\ dsrc (alive st) (store st) s <> x) /\
+     (forall p, In p (flat (parents st' k)) <-> In p (reads_of (alive st) (store st) k))).
+  Proof.
+    intros init ops j k Hn Hj st st'.
+    destruct (read_top_q st j (reach_ok init ops Hn) Hj k) as [(q1 & _)|(q1 & _ & _ & q4 & q5)]; [left; exact q1|].
+    right. split; [exact q1|]. split; [exact q4|exact q5].
+  Qed.
+
+  Lemma no_spurious_history : forall init ops j k, no_kill ops = true -> (j < n)%nat ->
+    let st := final prog nobs (install prog (init_state init)) ops in
+    first st k = false ->
+    (forall s x, In (s, x) (flat (parents st k)) -> dsrc (alive st) (store st) s = x) ->
+    count (fst (read_top prog st j)) k = count st k.
+  Proof.
+    intros init ops j k Hn Hj st Hf Hp.
+    destruct (runs_only_when_changed init ops j k Hn Hj) as [H|(_ & [H|[s [x [H1 H2]]]] & _)]; auto.
+    - fold st in H. congruence.
+    - exfalso. apply H2. apply Hp. exact H1.
+  Qed.
+
+  (* an assignment never runs a function (evaluation is lazy) *)
+  Lemma set_obs_count : forall b st o nm v st', set_obs prog b st o nm v = Some st' -> count st' = count st.
+  Proof.
+    intros b st o nm v st' H. unfold set_obs in H. destruct (b && ps_mem o nm (ps st)); [discriminate|].
+    destruct (notify_frame st (SObs o nm)) as (_ & _ & _ & _ & E & _).
+    destruct b; inversion H; subst st'; simpl; exact E.
+  Qed.
+
+  (* a read served from cache changes nothing, in particular not PROCESSING_SIGNALS *)
+  Lemma read_cached_noop : forall st k, (k < n)%nat -> dirty st k = false -> first st k = false ->
+    read_top prog st k = (st, value st k).
+  Proof.
+    intros st k Hk Hd Hf. unfold read_top, read_comp. unfold ncomp in *. destruct (length prog) as [|m]; [lia|].
+    simpl. rewrite Hd. simpl. rewrite Hf, Z.eqb_refl. reflexivity.
   Qed.
 
   (* never stale: after any history of assignments, reads and writer Computeds, reading computed k
@@ -1351,6 +1644,36 @@ Section Cyc.
         apply IH. destruct (set_inside_pext _ _ _ _ _ E) as [E2 _]. rewrite E2. exact Hal.
   Qed.
 
+  (* exactly what the code rejects: an assignment from inside a function is refused iff the
+     observable is in PROCESSING_SIGNALS at that moment *)
+  Lemma write_rejected_iff : forall st o nm v, alive st o = true ->
+    (snd (run_acts prog [AWrite o nm v] st) = false <-> ps_mem o nm (ps st) = true).
+  Proof.
+    intros st o nm v Hal. simpl. rewrite Hal. unfold set_obs. simpl.
+    destruct (ps_mem o nm (ps st)); simpl; split; intro; auto; discriminate.
+  Qed.
+
+  (* read a Computable, then assign: rejected iff evaluating the Computable put the observable into the
+     read set - i.e. iff its function was actually RE-RUN and read it (or it was there before) *)
+  Lemma read_comp_then_write : forall st k o nm v, (k < ncomp prog)%nat -> alive st (cowner prog k) = true ->
+    alive st o = true ->
+    snd (run_acts prog [AReadC k; AWrite o nm v] st) = negb (ps_mem o nm (ps (fst (read_top prog st k)))).
+  Proof.
+    intros st k o nm v Hk Hal Ho. simpl. apply Nat.ltb_lt in Hk. rewrite Hk, Hal. simpl.
+    destruct (read_top_pext st k) as [Ea _]. rewrite Ea, Ho. unfold set_obs. simpl.
+    destruct (ps_mem o nm (ps (fst (read_top prog st k)))); reflexivity.
+  Qed.
+
+  (* ... so a transitive cycle through a Computable that is served from cache is ACCEPTED, whatever
+     that Computable depends on *)
+  Lemma cycle_through_cache_accepted : forall st k o nm v, (k < ncomp prog)%nat -> alive st (cowner prog k) = true ->
+    alive st o = true -> dirty st k = false -> first st k = false -> ps_mem o nm (ps st) = false ->
+    snd (run_acts prog [AReadC k; AWrite o nm v] st) = true.
+  Proof.
+    intros st k o nm v Hk Hal Ho Hd Hf Hps. rewrite read_comp_then_write by auto.
+    rewrite (read_cached_noop prog st k Hk Hd Hf). simpl. rewrite Hps. reflexivity.
+  Qed.
+
   (* a rejected assignment leaves the store alone (the ValueError is raised before notify/store) *)
   Lemma rejected_write_atomic : forall st o nm v, set_obs prog true st o nm v = None -> ps_mem o nm (ps st) = true.
   Proof.
@@ -1377,4 +1700,23 @@ Proof.
   destruct (set_obs prog false st o nm v) as [st1|] eqn:E.
   - simpl. destruct (set_ok prog false st o nm v st1 HI E) as (_ & _ & H). apply H.
   - unfold set_obs in E. simpl in E. discriminate.
+Qed.
+
+Lemma never_stale_case : forall (c : case) (pre : list op) (k : nat),
+  no_kill pre = true -> (k < length (c_comps c))%nat ->
+  let st := final (c_comps c) (map (@length Z) (c_init c)) (start c) pre in
+  snd (read_top (c_comps c) st k) = den (c_comps c) (alive st) (store st) k.
+Proof. intros c pre k. exact (never_stale (c_comps c) (map (@length Z) (c_init c)) (c_init c) pre k). Qed.
+
+Lemma chain_read : forall (c : case) (pre : list op) (k : nat),
+  no_kill pre = true -> (k < length (c_comps c))%nat ->
+  let prog := c_comps c in
+  let st := final prog (map (@length Z) (c_init c)) (start c) pre in
+  let ev := den prog (alive st) (store st) in
+  snd (read_top prog st k) = pev prog ev (alive st) (store st) k (d_expr (cdef_at prog k)) /\
+  (forall k', ev k' = pev prog ev (alive st) (store st) k' (d_expr (cdef_at prog k'))).
+Proof.
+  intros c pre k Hn Hk prog st ev. split.
+  - unfold ev. rewrite <- den_unfold. exact (never_stale_case c pre k Hn Hk).
+  - intro k'. exact (den_unfold prog (alive st) (store st) k').
 Qed.
